@@ -65,7 +65,8 @@ def canon_opt(v, f=lambda x: x):
 
 
 def canon_env(e):
-    return [[[ord(c) for c in k], [ord(c) for c in v]] for k, v in e.items()]
+    # an env map is unordered (Python compares dicts without regard to insertion order): canonical = sorted by name
+    return [[[ord(c) for c in k], [ord(c) for c in v]] for k, v in sorted(e.items())]
 
 
 def canon_obs(o):
@@ -146,7 +147,7 @@ def coq_lvl(d):
         return coq_opt(f(d[key])) if key in d else "None"
     env = None
     if "env" in d:
-        env = coq_list([coq_pair(coq_str(k), coq_str(v)) for k, v in d["env"].items()])
+        env = coq_list([coq_pair(coq_str(k), coq_str(v)) for k, v in sorted(d["env"].items())])
         if not d["env"]:
             env = "(@nil (str * str))"
     return ("{| l_invocations := %s; l_iterations := %s; l_warmup := %s; l_min_iteration_time := %s; "
